@@ -803,3 +803,46 @@ theorem expPages_remove (l₁ l₂ : List Entry) (b : Entry) (hb : b.name ≠ in
   simp
 
 end Ford.PT
+
+/-! ## the encoding reaches every level -/
+
+namespace Ford.PT
+open Ford Ford.Gen.C17
+
+/-- the recursive call of the source under test hands its own `encoding` on -/
+theorem gen_encRec (enc : Str) : CallSites.gen.encRec enc = enc := rfl
+
+/-- `PageNode(...)` for index.md decodes the file with the `encoding` of the enclosing call -/
+theorem gen_encIndex (enc : Str) : CallSites.gen.encIndex enc = enc := rfl
+
+/-- `PageNode(...)` for a sibling page decodes the file with the `encoding` of the enclosing call -/
+theorem gen_encSub (enc : Str) : CallSites.gen.encSub enc = enc := rfl
+
+mutual
+theorem decodeE_gen (enc : Str) : (e : RawEntry) → decodeE CallSites.gen enc e = viewE enc e
+  | .file n w m => by simp [decodeE, viewE, gen_encIndex, gen_encSub]
+  | .dir n cs => by simp [decodeE, viewE, gen_encRec, decodeL_gen enc cs]
+theorem decodeL_gen (enc : Str) : (l : List RawEntry) → decodeL CallSites.gen enc l = viewL enc l
+  | [] => by simp [decodeL, viewL]
+  | e :: es => by simp [decodeL, viewL, decodeE_gen enc e, decodeL_gen enc es]
+end
+
+mutual
+theorem viewE_writtenIn (enc : Str) : (e : RawEntry) → writtenIn enc e = true → viewE enc e = plainE e
+  | .file n w m => by
+    intro h
+    simp only [writtenIn] at h
+    simp [viewE, plainE, readMeta, h]
+  | .dir n cs => by
+    intro h
+    simp only [writtenIn] at h
+    simp [viewE, plainE, viewL_writtenIn enc cs h]
+theorem viewL_writtenIn (enc : Str) : (l : List RawEntry) → writtenInL enc l = true → viewL enc l = plainL l
+  | [] => by simp [viewL, plainL]
+  | e :: es => by
+    intro h
+    simp only [writtenInL, Bool.and_eq_true] at h
+    simp [viewL, plainL, viewE_writtenIn enc e h.1, viewL_writtenIn enc es h.2]
+end
+
+end Ford.PT
